@@ -81,7 +81,11 @@ MANIFEST_ENTRIES = [
     (u'Object 10/', u'application/vnd.oasis.opendocument.spreadsheet'), (u'Object 10/content.xml', u'text/xml'),
     (u'Object 100/', u'application/vnd.oasis.opendocument.spreadsheet'), (u'Object 100/content.xml', u'text/xml'),
     (u'Object 1/Object 2/', u'application/vnd.oasis.opendocument.spreadsheet'), (u'Object 1/Object 2/content.xml', u'text/xml'),
+    (u'Object 1/Object 2/Object 33/', u'application/vnd.oasis.opendocument.spreadsheet'),
+    (u'Object 1/Object 2/Object 33/content.xml', u'text/xml'),
     (u'Object 4/', u'application/vnd.oasis.opendocument.spreadsheet'),      # its content.xml is in the zip but NOT listed
+    (u'Object 5/Object 6/', u'application/vnd.oasis.opendocument.spreadsheet'),   # parent folder "Object 5/" NOT listed
+    (u'Object 5/Object 6/content.xml', u'text/xml'),
     (u'extra/data.txt', u'text/plain'),
 ]
 
@@ -108,8 +112,10 @@ def template():
         (u'Object 1/content.xml', t_content('sheet')), (u'Object 1/styles.xml', t_styles()),
         (u'Object 1/meta.xml', t_meta()), (u'Object 1/settings.xml', t_settings()),
         (u'Object 10/content.xml', t_content('sheet')),
-        (u'Object 100/content.xml', t_content('sheet')),            # "Object 100/" is too long for load()'s object test
-        (u'Object 1/Object 2/content.xml', t_content('sheet')),     # nested object: load() does not descend
+        (u'Object 100/content.xml', t_content('sheet')),            # long folder name: a sub-document since 0372084
+        (u'Object 1/Object 2/content.xml', t_content('sheet')),     # nested object: a sub-document since 0372084
+        (u'Object 1/Object 2/Object 33/content.xml', t_content('sheet')),   # depth 3
+        (u'Object 5/Object 6/content.xml', t_content('sheet')),     # listed, but the chain is broken ("Object 5/" not listed)
         (u'Object 4/content.xml', t_content('sheet')),              # directory listed, member not listed
         (u'Object 3/content.xml', t_content('sheet')),              # neither listed
         (u'extra/data.txt', b'plain data'), (u'extra/' + ATT, b'x'),
@@ -131,7 +137,9 @@ def member_class(name):
     if obj in (u'Object 1', u'Object 10'):
         return part, 'object'
     return part, {u'Object 100': 'object-longname', u'Object 1/Object 2': 'object-nested',
-                  u'Object 4': 'object-member-unlisted', u'Object 3': 'object-unlisted'}[obj]
+                  u'Object 1/Object 2/Object 33': 'object-nested',
+                  u'Object 5/Object 6': 'object-parent-unlisted',
+                  u'Object 4': 'object-member-unlisted', u'Object 3': 'object-unlisted'}.get(obj, 'object-nested')
 
 
 def build(members):
@@ -448,21 +456,31 @@ def report(chk, sig, case, detail):
 
 
 def run_paths(chk, drv, numbers):
-    """the parametric claim for load ("every object path"): further `Object N/` directories, all four parts"""
+    """the parametric claim for load ("every object path"): further sub-document folders - other numbers, long names,
+    nested two and three deep - all four parts; every one of them is parsed, so its faulty member must be refused"""
     watch = Watch.install()
     tmp = tempfile.mkdtemp(prefix='c13-')
     try:
         tok = Tokens(chk.rng, tmp)
         for n in numbers:
-            if n in (1, 3, 4, 10):          # already in the template
-                continue
-            obj = u'Object %d/' % n
+            shape = n % 4
+            big = 1000 + 37 * n if n % 5 == 0 else 200 + n
+            chain_ = {0: [u'Object %d/' % big], 1: [u'Object 1/', u'Object %d/' % (n + 40)],
+                      2: [u'Object 10/', u'Object %d/' % big, u'Object %d/' % n],
+                      3: [u'Object %d/' % (n + 400), u'Object 0/']}[shape]
+            obj = u''.join(chain_)
             parts = [(u'content.xml', t_content('sheet')), (u'styles.xml', t_styles()), (u'meta.xml', t_meta()),
                      (u'settings.xml', t_settings())]
-            leaf, text = parts[n % 4]
+            leaf, text = parts[(n // 4) % 4]
             k = KINDS[n % len(KINDS)]
             ep = ['load', 'UserFields.list_fields', 'ODF2XHTML.odf2xhtml'][n % 3]
-            man = [(obj, u'application/vnd.oasis.opendocument.spreadsheet')] + [(obj + l, u'text/xml') for l, _ in parts]
+            already = set(p for p, _ in MANIFEST_ENTRIES)
+            man = []
+            for i in range(1, len(chain_) + 1):
+                folder = u''.join(chain_[:i])
+                if folder not in already:
+                    man.append((folder, u'application/vnd.oasis.opendocument.spreadsheet'))
+            man += [(obj + l, u'text/xml') for l, _ in parts]
             mtext = t_manifest().replace(u'</manifest:manifest>', u''.join(
                 u'<manifest:file-entry manifest:full-path="%s" manifest:media-type="%s"/>' % e for e in man) + u'</manifest:manifest>')
             mem = [(nm, d) for nm, d in template() if nm != MANIFEST]
@@ -474,7 +492,7 @@ def run_paths(chk, drv, numbers):
             ans = drv.ask('read %d %s %d %d %d %s %d %s' % ((EP_CODE[ep], enc_str(obj + leaf)) + KIND_FLAGS[k] + (
                 len(files), ' '.join(enc_str(f) for f in files), len(mans), ' '.join(enc_str(x) for x in mans))))
             chk.corr()
-            chk.count('object-path-cell')
+            chk.count('object-path-cell.depth%d' % len(chain_))
             case = {'ep': ep, 'member': obj + leaf, 'kind': k}
             chk.case((ep, obj + leaf, k), nontrivial=True)
             got = c if c != 'forbidden' else 'forbidden:' + str(o['defused'])
@@ -483,7 +501,8 @@ def run_paths(chk, drv, numbers):
             if got != want:
                 chk.corr_diff(case, got, ans, 'outcome of the cell (further object path)')
             if c != 'forbidden' or o['touched']:
-                report(chk, '%s:%s@object:%s' % (ep, leaf[:-4], KIND_CLASS[k]) + ('' if c == 'expanded' else ':silent'), case,
+                where = 'object' if len(chain_) == 1 else 'object-nested'
+                report(chk, '%s:%s@%s:%s' % (ep, leaf[:-4], where, KIND_CLASS[k]) + ('' if c == 'expanded' else ':silent'), case,
                        'member of a further embedded object: observed %s %s' % (c, o['touched'][:1]))
     finally:
         watch.needles = []
@@ -604,9 +623,31 @@ def check_repo_binding():
 def run(chk, replay=None):
     import translate_entity
     check_repo_binding()
-    chk.rule = ('every cell of: %d XML members (5 top level, 4 in "Object 1/", and 5 members load() must not parse) x %d injection kinds '
+    chk.rule = ('every cell of: %d XML members (5 top level, 4 in "Object 1/", 4 in further / long-named / nested sub-documents, and 3 members load() must not parse) x %d injection kinds '
                 'x %d entry points, plus controls (clean, bare DOCTYPE) and a not-well-formed probe per (entry point, member); '
                 'non-trivial = the entry point really parses the member' % (len(XML_MEMBERS), len(KINDS), len(EPS)))
+    if replay is not None and replay['input']['member'] not in XML_MEMBERS:
+        # a cell of the object-path sweep: rebuild the package from the member path
+        c = replay['input']
+        watch = Watch.install()
+        tmp = tempfile.mkdtemp(prefix='c13-')
+        try:
+            tok = Tokens(chk.rng, tmp)
+            obj, _, leaf = c['member'].rpartition(u'/')
+            segs = [x + u'/' for x in obj.split(u'/')]
+            parts = {u'content.xml': t_content('sheet'), u'styles.xml': t_styles(), u'meta.xml': t_meta(), u'settings.xml': t_settings()}
+            already = set(p for p, _ in MANIFEST_ENTRIES)
+            man = [(u''.join(segs[:i]), u'application/vnd.oasis.opendocument.spreadsheet') for i in range(1, len(segs) + 1)
+                   if u''.join(segs[:i]) not in already] + [(c['member'], u'text/xml')]
+            mtext = t_manifest().replace(u'</manifest:manifest>', u''.join(
+                u'<manifest:file-entry manifest:full-path="%s" manifest:media-type="%s"/>' % e for e in man) + u'</manifest:manifest>')
+            mem = [(nm, d) for nm, d in template() if nm != MANIFEST] + [(c['member'], inject(parts[leaf], c['kind'], tok)), (MANIFEST, mtext)]
+            o = observe(c['ep'], build(mem), tok, watch)
+        finally:
+            watch.needles = []
+            shutil.rmtree(tmp, ignore_errors=True)
+        print('replay: %s -> %s' % (c, o))
+        return 0 if (cls(o) == 'forbidden' and not o['touched']) else 1
     if replay is not None:
         c = replay['input']
         tbl = run_matrix(chk, None, verbose=True, only=(c['ep'], c['member'], c['kind']))
